@@ -533,13 +533,15 @@ package bchutil
 //@   modifies nothing
 
 //@ func bchutil.NewBlockFromReader
-//@   requires typeis(r, "bytes.*Reader")
+//@   requires typeis(r, "bytes.*Reader") || typeis(r, "bytes.*Buffer")
 //@   ensures err == nil ==> result0 != nil && fresh(result0) && result0.msgBlock != nil && fresh(result0.msgBlock) && len(result0.serializedBlock) == 0 && len(result0.transactions) == 0 && !result0.txnsGenerated && result0.blockHash == nil && result0.blockHeight == -1
-//@   ensures err == nil ==> *unbox(r, "bytes.*Reader") >= 0
+//@   ensures err == nil && typeis(r, "bytes.*Reader") ==> *unbox(r, "bytes.*Reader") >= 0
 //@   ensures err == nil ==> forall k :: 0 <= k && k < len(result0.msgBlock.Transactions) ==> result0.msgBlock.Transactions[k] != nil
 //@   ensures err != nil ==> result0 == nil
-//@   ensures *unbox(r, "bytes.*Reader") <= old(*unbox(r, "bytes.*Reader"))
-//@   modifies *unbox(r, "bytes.*Reader")
+//@   ensures typeis(r, "bytes.*Reader") ==> *unbox(r, "bytes.*Reader") <= old(*unbox(r, "bytes.*Reader"))
+//@   ensures $calls_Deserialize == 1
+//@   modifies *unbox(r, "bytes.*Reader"), *unbox(r, "bytes.*Buffer")
+//@   assert after Deserialize#1: $arg1 == r
 
 //@ func bchutil.NewBlockFromBytes
 //@   ensures err != nil ==> result0 == nil
